@@ -64,25 +64,28 @@ def header (sender : Option Bytes) (eph payloadKey : Bytes) (rs : List Recipient
       (match sender with | none => zeros 32 | some s => P.sigPub s),
     receivers := receiverEntries P eph payloadKey rs 0 }
 
-/-- `signcryptBlock` -/
-def block (sender : Option Bytes) (payloadKey headerHash : Bytes) (i : Nat) (chunk : Bytes)
-    (isFinal : Bool) : Except Err Bytes :=
+/-- `signcryptBlock`, as the packet structure -/
+def blockStruct (sender : Option Bytes) (payloadKey headerHash : Bytes) (i : Nat) (chunk : Bytes)
+    (isFinal : Bool) : Except Err SigncryptBlock :=
   if !blockNumberOK i then .error .packetOverflow
   else
     let nonce := Nonce.chunkSigncryption headerHash isFinal i
     let sig := match sender with
       | none => zeros 64
       | some s => P.sign s (signcryptionSignatureInput P headerHash nonce isFinal chunk)
-    .ok (encode (signcryptBlockVal (P.sbSeal payloadKey nonce (sig ++ chunk)) isFinal))
+    .ok ⟨P.sbSeal payloadKey nonce (sig ++ chunk), isFinal⟩
 
-def blocks (sender : Option Bytes) (payloadKey headerHash : Bytes) :
-    List (Bytes × Bool) → Nat → Except Err Bytes
+def blockStructs (sender : Option Bytes) (payloadKey headerHash : Bytes) :
+    List (Bytes × Bool) → Nat → Except Err (List SigncryptBlock)
   | [], _ => .ok []
   | (c, f) :: rest, i =>
-    match block P sender payloadKey headerHash i c f, blocks sender payloadKey headerHash rest (i + 1) with
-    | .ok b, .ok bs => .ok (b ++ bs)
+    match blockStruct P sender payloadKey headerHash i c f, blockStructs sender payloadKey headerHash rest (i + 1) with
+    | .ok b, .ok bs => .ok (b :: bs)
     | .error e, _ => .error e
     | _, .error e => .error e
+
+def encodeBlocks (bs : List SigncryptBlock) : Bytes :=
+  bs.flatMap (fun b => encode (signcryptBlockVal b.ct b.final))
 
 /-- the signing calls a seal makes (C12) -/
 def signCalls (sender : Option Bytes) (headerHash : Bytes) : List (Bytes × Bool) → Nat → List KeyCall
@@ -93,18 +96,25 @@ def signCalls (sender : Option Bytes) (headerHash : Bytes) : List (Bytes × Bool
      | some s => [KeyCall.sign s (signcryptionSignatureInput P headerHash (Nonce.chunkSigncryption headerHash f i) f c)])
     ++ signCalls sender headerHash rest (i + 1)
 
-/-- complete message given resolved randomness; `rs` in header order -/
-def sealWith (bs : Nat) (sender : Option Bytes) (rs : List Recipient) (eph payloadKey pt : Bytes) :
-    Except Err Bytes :=
+/-- what `SigncryptSeal` produces, as structures; `rs` in header order -/
+def sealPackets (bs : Nat) (sender : Option Bytes) (rs : List Recipient) (eph payloadKey pt : Bytes) :
+    Except Err (EncHeader × Bytes × List SigncryptBlock) :=
   match checkReceivers rs [] with
   | .error e => .error e
   | .ok () =>
     let h := header P sender eph payloadKey rs
     let headerBytes := encode h.toVal
     let hh := P.hash headerBytes
-    match blocks P sender payloadKey hh (Encrypt.chunkPlan v2 bs pt) 0 with
+    match blockStructs P sender payloadKey hh (Encrypt.chunkPlan v2 bs pt) 0 with
     | .error e => .error e
-    | .ok body => .ok (headerPacket headerBytes ++ body)
+    | .ok blks => .ok (h, headerBytes, blks)
+
+/-- complete message given resolved randomness -/
+def sealWith (bs : Nat) (sender : Option Bytes) (rs : List Recipient) (eph payloadKey pt : Bytes) :
+    Except Err Bytes :=
+  match sealPackets P bs sender rs eph payloadKey pt with
+  | .error e => .error e
+  | .ok (_, headerBytes, blks) => .ok (headerPacket headerBytes ++ encodeBlocks blks)
 
 /-- `SigncryptSeal` with its randomness: shuffle (box keys first, then symmetric
     keys, as `shuffleSigncryptReceivers` lays them out), ephemeral key, payload key -/
